@@ -277,6 +277,37 @@ var concreteNames = []string{"amd64", "i386", "arm64", "armhf", "all", "gnu-kfre
 
 func genSelectCase(t *rapid.T) SelectCase {
 	ast := genDepAST(t, "d", 5, 4, true)
+	// alternatives of one relation written by the same hand: later lists are sub- or supersets of
+	// earlier ones, same polarity, over the architectures that are queried
+	for ri := range ast.Rels {
+		alts := ast.Rels[ri].Alts
+		if len(alts) < 2 || rapid.IntRange(0, 1).Draw(t, "corr") == 1 {
+			continue
+		}
+		n := rapid.IntRange(2, 4).Draw(t, "corrN")
+		base := []string{}
+		for i := 0; i < n; i++ {
+			base = append(base, rapid.SampledFrom([]string{"amd64", "i386", "arm64", "armhf", "kfreebsd-any", "hurd-any", "linux-any", "any-amd64", "musl-any-any"}).Draw(t, "corrA"))
+		}
+		not := rapid.Bool().Draw(t, "corrNot")
+		for ai := range alts {
+			if alts[ai].Substvar {
+				continue
+			}
+			k := rapid.IntRange(1, len(base)).Draw(t, "corrK")
+			sub := append([]string{}, rapid.Permutation(base).Draw(t, "corrP")[:k]...)
+			alts[ai].Archs, alts[ai].ArchNot = sub, not
+			has := false
+			for _, o := range alts[ai].Order {
+				if o == "a" {
+					has = true
+				}
+			}
+			if !has {
+				alts[ai].Order = append(alts[ai].Order, "a")
+			}
+		}
+	}
 	// bias arch lists towards names that interact with the concrete arch
 	return SelectCase{AST: ast, Text: renderDep(ast, canonicalSpacer), Arch: rapid.SampledFrom(concreteNames).Draw(t, "arch")}
 }
